@@ -23,14 +23,14 @@ func (c09) Runs(tier string) int {
 	if tier == "thorough" {
 		return 300000
 	}
-	return 1600
+	return 3000
 }
 func (c09) Describe() core.Description {
 	return core.Description{
-		Level: "exploration",
-		Rule:  "per run: drawn scheme (integer in standard or scale-invariant mode / approximate) and parameters (LogN 5-7, 3-5 Q primes, 1-2 P primes), one long-lived evaluator, a pool of ciphertexts (degree 1 and 2, several levels and scales), plaintexts, vectors and scalars of every accepted Go type; history of 6-30 steps, each drawing an operation of the catalog, operands from the pool, an aliasing pattern (fresh output / out==op0 / out==op1 / op0==op1 / all equal / dirty output of larger degree or level with arbitrary content and metadata) and whether all scratch memory reachable from the evaluator is overwritten with garbage first; the step is mirrored on a freshly constructed twin evaluator with deep copies of the inputs and a zeroed output of the same shape. Non-trivial = at least one aliased, dirty or poisoned step executed and compared; distinct = distinct choice traces",
-		Real:  []string{"bgv.Evaluator (both modes) and ckks.Evaluator public operations incl. their rlwe.Evaluator / BasisExtender / Encoder internals", "bgv.Encoder / ckks.Encoder Encode and Decode on long-lived encoders", "rlwe.Encryptor / Decryptor", "ring.Ring arithmetic, NTT, rescaling and automorphism operations over a pool of polynomials (aliased / dirty outputs)", "rlwe.KeyGenerator writing into reused key objects (row-noise oracle with the simulator's knowledge of the secrets)"},
-		Stub:  []string{"scratch-memory fault injector (reflection walk over fields named buff*/buf*/tmp*/pool*)", "entropy source (deterministic crypto/rand.Reader)"},
+		Level:  "exploration",
+		Rule:   "per run: drawn scheme (integer in standard or scale-invariant mode / approximate) and parameters (LogN 5-7, 3-5 Q primes, 1-2 P primes), one long-lived evaluator, a pool of ciphertexts (degree 1 and 2, several levels and scales), plaintexts, vectors and scalars of every accepted Go type; history of 6-30 steps, each drawing an operation of the catalog, operands from the pool, an aliasing pattern (fresh output / out==op0 / out==op1 / op0==op1 / all equal / dirty output of larger degree or level with arbitrary content and metadata) and whether all scratch memory reachable from the evaluator is overwritten with garbage first; the step is mirrored on a freshly constructed twin evaluator with deep copies of the inputs and a zeroed output of the same shape. Non-trivial = at least one aliased, dirty or poisoned step executed and compared; distinct = distinct choice traces",
+		Real:   []string{"bgv.Evaluator (both modes) and ckks.Evaluator public operations incl. their rlwe.Evaluator / BasisExtender / Encoder internals", "bgv.Encoder / ckks.Encoder Encode and Decode on long-lived encoders", "rlwe.Encryptor / Decryptor", "ring.Ring arithmetic, NTT, rescaling and automorphism operations over a pool of polynomials (aliased / dirty outputs)", "rlwe.KeyGenerator writing into reused key objects (row-noise oracle with the simulator's knowledge of the secrets)"},
+		Stub:   []string{"scratch-memory fault injector (reflection walk over fields named buff*/buf*/tmp*/pool*)", "entropy source (deterministic crypto/rand.Reader)"},
 		Assume: []string{"scratch is discovered by field name and type; scratch kept under other names is reached only through real preceding operations", "ring elements are compared canonically (mod q); trailing identically-zero components are ignored", "an aliased call may be rejected with an error; a status (ok / error / panic) that differs between system and twin is a violation", "operations documented as in place (DropLevel, SetScale, MatchScalesAndLevel) may change only their designated operand"},
 	}
 }
@@ -85,11 +85,11 @@ type c09Scheme struct {
 	// gen draws a non-ciphertext operand of the given kind at the given level.
 	gen func(g *core.Xoshiro, kind int, level int, scaleOf *rlwe.Ciphertext) any
 	// fresh draws a fresh ciphertext.
-	fresh func(g *core.Xoshiro, level int) *rlwe.Ciphertext
+	fresh   func(g *core.Xoshiro, level int) *rlwe.Ciphertext
 	keyHash func() uint64
 	// newScale draws a scale of the scheme's kind (mod-T integer / real).
 	newScale func(g *core.Xoshiro) rlwe.Scale
-	extra   func(ctx *core.RunCtx, sc *c09Scheme, sys any, g *core.Xoshiro) bool // encoder / encryptor histories
+	extra    func(ctx *core.RunCtx, sc *c09Scheme, sys any, g *core.Xoshiro) bool // encoder / encryptor histories
 }
 
 func hashCt(ct *rlwe.Ciphertext) uint64 {
@@ -233,7 +233,9 @@ func c09Exec(f func() error) c09Status {
 func (c09) Run(ctx *core.RunCtx) {
 	ch := ctx.Ch
 	var sc *c09Scheme
-	switch ch.Weighted("scheme", []int{4, 4, 4, 2, 1}) {
+	switch ch.Weighted("scheme", []int{4, 4, 4, 2, 1, 2}) {
+	case 5:
+		sc = c09RLWE(ctx)
 	case 3:
 		c09RingRun(ctx)
 		return
@@ -403,7 +405,12 @@ func (c09) Run(ctx *core.RunCtx) {
 				ctx.Harness("scratch poisoning found no scratch memory in %T", sys)
 			}
 		}
+		c09ArgModified = ""
 		sysSt := c09Exec(func() error { return op.call(sys, op0, op1, k, out) })
+		if c09ArgModified != "" {
+			ctx.Fail("inputs", sc.name+"|"+op.name+"|argument-modified", "%s modified %s", op.name, c09ArgModified)
+			return
+		}
 		twin := sc.newEval()
 		twinSt := c09Exec(func() error { return op.call(twin, t0, t1, k, tout) })
 		ctx.Event("step %d %s(%s) k=%d %s poison=%d op0(l=%d,d=%d) -> sys %s / twin %s", s, op.name, kindName(op1), k, patName, nPoison, op0.Level(), op0.Degree(), []string{"ok", "error", "panic"}[sysSt.kind], []string{"ok", "error", "panic"}[twinSt.kind])
